@@ -229,6 +229,11 @@ def suspension_grid():
     return out
 
 
+MODULE_SCENARIOS = [
+    ("fibers-keep-the-module-of-their-code", 'import "genmod";\nvar base = 1; var step = 2;\nvar g = genmod.make();\nprint(g.call()); print(g.call()); print(g.call());\nvar m = Fiber.new(|| genmod.Gen.new().run());\nprint(m.call()); print(m.call()); print(m.call());\nvar r = Fiber.new(genmod.reader); print(r.call()); print(r.call()); print(r.call()); print(base); print(genmod.base);\nvar mine = Fiber.new(|| { Fiber.yield(base); Fiber.yield(base + step); base = base + 5; return base; });\nprint(genmod.drive(mine)); print(genmod.drive(mine)); print(genmod.drive(mine)); print(base);\n', {'genmod': 'var base = 100;\nvar step = 10;\nfn counter() { var n = 0; while true { Fiber.yield(base + n * step); n = n + 1; } }\nfn make() { return Fiber.new(counter); }\n#[constructor(new)] class Gen { fn run(self) { Fiber.yield(base); Fiber.yield(base + step); return base + 2 * step; } }\nfn reader() { var seen = []; seen.push(base); Fiber.yield(seen); seen.push(step); Fiber.yield(seen); base = base + 1; return [base, step]; }\nfn drive(f) { var got = f.call(); return [got, base]; }\n'}, ['100', '110', '120', '100', '110', '120', '[100]', '[100, 10]', '[101, 10]', '1', '101', '[1, 101]', '[3, 101]', '[6, 101]', '6']),
+]
+
+
 def check_scenario(res, expected, outcome):
     from props import c08
     return c08.check_scenario(res, expected, outcome)
@@ -282,6 +287,15 @@ def correspondence(ctx, model_ok=True):
             if err or uaf:
                 failures.append({"what": "fiber scenario '%s': %s" % (name, err or uaf), "program": src, "expected": e, "expected_outcome": o,
                                  "observed": progs.canon_step(r), "signature": "scenario " + name.split(":")[0], "failing_input": True})
+    # fibers across modules: a fiber runs the code of the module its body was written in, whoever starts or resumes it - after every yield
+    # its globals are that module's (same names with other values exist in the resuming module), in plain functions, methods and lambdas
+    for mode in ({"gc": "default"}, {"gc": "always", "quarantine": 1}):
+        mres, _ = progs.run_programs(ctx.runner, [(n, s_, m) for n, s_, m, _ in MODULE_SCENARIOS], mode, tag="m")
+        for (name, src, mods, e), r in zip(MODULE_SCENARIOS, mres):
+            c = progs.canon_step(r)
+            if c[0] != "ok" or list(c[2]) != e:
+                failures.append({"what": "fiber scenario '%s' prints %s (%s), expected %s" % (name, list(c[2]) if len(c) > 2 else c, c[0], e),
+                                 "program": src, "modules": mods, "expected": e, "signature": "scenario " + name, "failing_input": True})
     # (c2) suspension points x meanwhile actions
     grid = suspension_grid()
     gres, glines = progs.run_programs(ctx.runner, [(n, src, {}) for n, src, _ in grid], {"gc": "default"}, tag="u")
